@@ -93,6 +93,10 @@ fn gen_wfields(rng: &mut Rng, stems: &mut Stems, n: usize, generic: bool, which:
         if rng.chance(if which == 1 { 2 } else { 1 }, 5) {
             f.rename = Some(rename_value(&st, rng, true));
         }
+        // a defaulted field keeps its key (optionality is C04's subject; the binding of the key is this one's)
+        if which == 1 && rng.chance(1, 6) {
+            f.default = true;
+        }
         out.push(WField { f, sent });
     }
     out
@@ -660,7 +664,7 @@ pub fn run(ctx: &Ctx, which: u8) -> (Spec, Report) {
     let spec = Spec {
         level: "translation_validation",
         rule: if which == 1 {
-            format!("{n_prog} generated programs (structs and struct variants, 1-8 conventionally named fields incl. raw identifiers, target-language keywords and names that open with single-letter words (`r_g_b`), serde(rename) over [A-Za-z_][A-Za-z0-9_-]*, 8 rename_all rules on container/variant (also beneath an enum-level rename_all_fields, which a variant's own rule overrides), any attribute spelling/order, generic containers, prefix/package settings) x 6 languages; every field's bound key (TS property, @SerialName, CodingKeys, json tag, pydantic alias) is compared with the key real serde_json emitted for the same field (matched by ordinal sentinel values); a cell is distinct by (language, rule, rename/rule, container kind, key class) and non-trivial when key != Rust identifier")
+            format!("{n_prog} generated programs (structs and struct variants, 1-8 conventionally named fields incl. raw identifiers, target-language keywords and names that open with single-letter words (`r_g_b`), serde(rename) over [A-Za-z_][A-Za-z0-9_-]*, serde(default) on a sixth of the fields, 8 rename_all rules on container/variant (also beneath an enum-level rename_all_fields, which a variant's own rule overrides), any attribute spelling/order, generic containers, prefix/package settings) x 6 languages; every field's bound key (TS property, @SerialName, CodingKeys, json tag, pydantic alias) is compared with the key real serde_json emitted for the same field (matched by ordinal sentinel values); a cell is distinct by (language, rule, rename/rule, container kind, key class) and non-trivial when key != Rust identifier")
         } else {
             format!("{n_prog} generated programs (unit enums and adjacently tagged enums, 1-8 variants, unit/newtype/struct variants, 8 rename_all rules, per-variant renames, variants marked skip_deserializing (still written by serde), 15 tag/content key pairs (with acronyms, and with Kotlin-only hard keywords as keys), generics, self-recursion) x 6 languages; variant wire names, every tag/content key site and the one-case-per-variant structure of the generated code are compared with real serde_json output for each variant; non-trivial = wire name != Rust identifier, or a tag/content site")
         },
